@@ -496,7 +496,7 @@ func (m c14) Run(c *fw.Ctx) {
 		}
 		// seeded histories of length 2..4 over this command's variants (and a
 		// variant with -o), repeats included.
-		nrand := c.Pick(6, 40)
+		nrand := c.Pick(6, 250)
 		for k := 0; k < nrand; k++ {
 			if !c.NextShared() {
 				continue
